@@ -24,15 +24,15 @@ namespace Wild.SymTab
 open Wild.Link
 
 inductive Vis where
-  | default | protected | hidden | internal
+  | dflt | prot | hid | intern
   deriving Repr, DecidableEq, Inhabited
 
 /-- `convert_elf_visibility` followed by the derived `Ord`: 0 default, 1 protected, 2 hidden. -/
 def Vis.rank : Vis → Nat
-  | .default => 0
-  | .protected => 1
-  | .hidden => 2
-  | .internal => 2
+  | .dflt => 0
+  | .prot => 1
+  | .hid => 2
+  | .intern => 2
 
 def Vis.isHidden (v : Vis) : Bool := v.rank == 2
 
@@ -45,7 +45,7 @@ structure Sym where
   isLocal : Bool := false
   /-- STB_WEAK -/
   weak : Bool := false
-  vis : Vis := .default
+  vis : Vis := .dflt
   /-- STT_* -/
   type : Nat := 0
   size : Nat := 0
@@ -111,9 +111,19 @@ def anyLoadedRegular (fs : List XFile) (p : XFile → Bool) : Bool :=
     | some f => loaded fs i && !f.dynamic && p f
     | none => false
 
-/-- `process_alternatives` (≥ 2 definitions; only files that take part in the link count) or the
-symbol's own visibility (`can_export_symbol`, 1 definition). -/
-def defVisHidden (fs : List XFile) (n : Nat) : Bool := anyLoadedRegular fs (hiddenEntry · n true)
+/-- Does `f` hold a non-local definition of `n`? (one pending symbol in `populate_symbol_db`) -/
+def XFile.definesGlobal (f : XFile) (n : Nat) : Bool :=
+  f.syms.any fun s => s.defined && !s.isLocal && s.name == n
+
+/-- The name has alternative definitions (`alternative_definitions` is non-empty): at least two files
+— loaded or not, regular or shared — define it. -/
+def hasAlternatives (fs : List XFile) (n : Nat) : Bool := 2 ≤ fs.countP (·.definesGlobal n)
+
+/-- `process_alternatives`: runs only for names with alternatives; the visibility merge looks at the
+definitions in files that take part in the link; `handle_non_default_visibility(Hidden)` flags every
+regular definition of the name. -/
+def defVisHidden (fs : List XFile) (n : Nat) : Bool :=
+  hasAlternatives fs n && anyLoadedRegular fs (hiddenEntry · n true)
 
 /-- `resolve_symbol`: a hidden undefined reference in a loaded regular object. -/
 def refVisHidden (fs : List XFile) (n : Nat) : Bool := anyLoadedRegular fs (hiddenEntry · n false)
@@ -143,14 +153,15 @@ def canExport (cfg : Config) (fs : List XFile) (i : Nat) (f : XFile) (s : Sym) (
 def exportAllDynamic (cfg : Config) (f : XFile) : Bool :=
   (cfg.out == .shared && !f.excluded) || cfg.exportAll
 
-/-- Names a loaded shared object references (its undefined symbols): each one sends
-`WorkItem::ExportDynamic` to the file holding the canonical definition. -/
+/-- Names in the dynamic symbol table of a loaded shared object, defined there or not
+(`request_all_undefined_symbols` walks ALL its symbols): each one whose canonical definition lives in
+another file sends `WorkItem::ExportDynamic` to that file. -/
 def sharedRefs (fs : List XFile) : List Nat :=
   (List.range fs.length).flatMap fun i =>
     match fs[i]? with
     | some f =>
       if loaded fs i && f.dynamic then
-        (f.syms.filter fun s => !s.defined && !s.isLocal).map (·.name)
+        (f.syms.filter fun s => !s.isLocal).map (·.name)
       else []
     | none => []
 
@@ -186,16 +197,16 @@ def boundToShared (fs : List XFile) (n : Nat) : Bool :=
   | some (.chosen d) => loaded fs d && ((fs[d]?.map (·.dynamic)).getD false)
   | _ => false
 
-/-- `canonicalise_undefined_symbols`: an unbound name is made `DYNAMIC` (an import) according to the
-LAST referencing entry (highest symbol id): default visibility, and shared output or weak. -/
+/-- `canonicalise_undefined_symbols`: an unbound name is made `DYNAMIC` (an import) when it is
+referenced with default visibility only, and the output is a shared object or the references are weak
+(a non-weak unbound reference in an executable is a link error). -/
 def unboundImport (cfg : Config) (fs : List XFile) (n : Nat) : Bool :=
-  !isBound false (linkFiles fs) n &&
-    match (regularRefs fs n).getLast? with
-    | some s => !s.vis.isHidden && s.vis != .protected && (cfg.out == .shared || s.weak)
-    | none => false
+  !isBound false (linkFiles fs) n && !(regularRefs fs n).isEmpty &&
+    ((regularRefs fs n).all fun s => s.vis == .dflt) &&
+    (cfg.out == .shared || (regularRefs fs n).all fun s => s.weak)
 
 def isImport (cfg : Config) (fs : List XFile) (n : Nat) : Bool :=
-  ((regularRefs fs n).any fun s => s.vis == .default) && boundToShared fs n && !refVisHidden fs n
+  ((regularRefs fs n).any fun s => s.vis == .dflt) && boundToShared fs n && !refVisHidden fs n
     || unboundImport cfg fs n
 
 /-! ### `.symtab` -/
@@ -203,6 +214,8 @@ def isImport (cfg : Config) (fs : List XFile) (n : Nat) : Bool :=
 structure OutSym where
   name : Nat
   file : Nat
+  /-- the input entry was STB_LOCAL (model-internal: tells global definitions from file-local ones) -/
+  fromLocal : Bool
   /-- output binding is STB_LOCAL -/
   bindLocal : Bool
   weak : Bool
@@ -223,7 +236,7 @@ def symtabLocal (cfg : Config) (fs : List XFile) (s : Sym) : Bool :=
 /-- `copy_symbol_shndx`: `st_info`/`st_other` copied from the input, binding forced to STB_LOCAL when
 downgraded. -/
 def outSym (cfg : Config) (fs : List XFile) (i : Nat) (s : Sym) : OutSym :=
-  { name := s.name, file := i, bindLocal := s.isLocal || downgraded cfg fs s.name,
+  { name := s.name, file := i, fromLocal := s.isLocal, bindLocal := s.isLocal || downgraded cfg fs s.name,
     weak := s.weak, vis := s.vis, type := s.type, size := s.size }
 
 /-- Entries file `i` writes into the part selected by `wantLocal` (`define_symbol(is_local, ..)`). -/
